@@ -14,7 +14,7 @@ def run(tier):
     chk = gwcheck.GwCheck(PID, tier, PROJ, focus=focus, mc_props=PROPS, mc_invs=INVS,
                           mc_depth_quick=4, mc_depth_thorough=5,
                           profile={"req": 18, "config": 6, "time": 6, "idreq": 8, "gwready": 4},
-                          nontrivial=lambda ev: bool(ev["out"]))
+                          scripts=gwfocus.falsy_scripts(), nontrivial=lambda ev: bool(ev["out"]))
     return chk.run()
 
 
